@@ -71,6 +71,8 @@ TYPES_THOROUGH = [
 ]
 TYPE_VALUES = dict(TYPES + TYPES_THOROUGH)
 TYPE_VALUES["Option<String>"] = ["null", '"s"']
+TYPE_VALUES["Reply"] = ['{"id":0,"payload":"","gas_used":0,"result":{"ok":{"events":[],"data":null,"msg_responses":[]}}}',
+                        '{"id":1,"payload":"aGk=","gas_used":5,"result":{"error":"boom"}}']
 
 ARG_NAMES = ["a", "b1", "_c", "x_y", "r#type", "msg"]
 ARG_NAMES_E1 = ARG_NAMES + ["field1", "contract", "ctx", "self_"]
@@ -106,6 +108,7 @@ class Method:
     ctx_attrs: tuple = ()     # attributes on the ctx parameter (C18)
     self_attrs: tuple = ()
     raw_sig: str = None       # full replacement for the parameter list after ctx (C18 oddities)
+    ctx_ty: str = None        # explicit context type (legacy reply handlers)
 
 
 @dataclass
@@ -239,7 +242,7 @@ def render_method(m, part, part_label, style, custom_msg=None, custom_query=None
         lines.append(a)
     ret = m.ret or default_ret(m.kind, part, custom_msg, m.err, m.qret, iface)
     selfp = "".join(a + " " for a in m.self_attrs) + "&self"
-    ctxp = "".join(a + " " for a in m.ctx_attrs) + "ctx: " + ctx_type(m.kind, custom_query, iface)
+    ctxp = "".join(a + " " for a in m.ctx_attrs) + "ctx: " + (m.ctx_ty or ctx_type(m.kind, custom_query, iface))
     sig = "%sfn %s(%s, %s%s) -> %s" % (m.vis, m.name, selfp, ctxp, render_args(m), ret)
     if decl_only:
         return "\n    ".join(lines + [sig + ";"])
